@@ -17,7 +17,7 @@ import ScadVerif.Driver.C19
 open ScadVerif.Driver
 
 def allHandlers : List (String × List (String × Handler)) :=
-  [("C01", C01.handlers), ("C02", C01.handlersC02), ("C03", C03.handlers), ("C04", C04.handlers 4), ("C05", C04.handlers 5), ("C06", C06.handlers), ("C07", C07.handlers), ("C08", C08.handlers), ("C09", C09.handlers), ("C10", C10.handlers), ("C11", C11.handlers), ("C12", C12.handlers), ("C13", C13.handlers), ("C14", C16.handlersC14), ("C15", C15.handlers), ("C16", C16.handlers), ("C17", C17.handlers), ("C18", C18.handlers), ("C19", C19.handlers)]
+  [("C01", C01.handlers ++ [("file", C13.handle false)]), ("C02", C01.handlersC02), ("C03", C03.handlers), ("C04", C04.handlers 4), ("C05", C04.handlers 5), ("C06", C06.handlers), ("C07", C07.handlers), ("C08", C08.handlers), ("C09", C09.handlers), ("C10", C10.handlers), ("C11", C11.handlers), ("C12", C12.handlers), ("C13", C13.handlers), ("C14", C16.handlersC14), ("C15", C15.handlers), ("C16", C16.handlers), ("C17", C17.handlers), ("C18", C18.handlers), ("C19", C19.handlers)]
 
 def processLine (hs : List (String × Handler)) (line : String) : String :=
   let parts := line.splitOn "\t"
